@@ -288,12 +288,22 @@ def _run_recover(env, budget):
         env.fs.read_fuel = None
 
 
-def h_recover_clean(sel: int) -> None:
-    """Undamaged file: the recovered storage answers every revision query like the source."""
-    names = ['T1', 'T2', 'T3', 'T4', 'T5', 'T6', 'T10', 'T12']
+def h_recover_clean(sel: int, stale_out: bool = False) -> None:
+    """Undamaged file: the recovered storage answers every revision query like the source.  stale_out: the output
+    path already holds an older data file (with its index) that the forced run has to replace."""
+    names = ['T1', 'T2', 'T3', 'T4', 'T5', 'T6', 'T10', 'T12', 'T4U']
     k = choose(sel, len(names))
     with untraced():
+        stale = None
+        if stale_out:
+            # (built first: the newest Env is the one the ZODB modules are bound to)
+            env2, s2, h2 = T.build_file('T2L')
+            s2.close()
+            stale = bytes(env2.fs.content(SRC)), bytes(env2.fs.content(SRC + '.index'))
         env, s, m_ = _source(names[k])
+        if stale:
+            env.fs.put(OUT, stale[0])
+            env.fs.put(OUT + '.index', stale[1])
 
         class _H:
             m = m_
@@ -456,7 +466,7 @@ def h_blob_copy(u1: bool, w3: bool, u2: bool, with_new: int, packsel: int, dest:
     reached()
 
 
-_SRC = ['T1', 'T2', 'T4', 'T5', 'T6']
+_SRC = ['T1', 'T2', 'T4', 'T4U', 'T5', 'T6']
 HARNESSES = [
     Harness('copy', h_copy,
             decides='copyTransactionsFrom(source.iterator(start, stop)) gives a destination that answers every revision query '
@@ -467,7 +477,7 @@ HARNESSES = [
                   'TransactionRecordIterator'],
             quick=dict(timeout=170, shards=shards(template=['T4', 'T5'], dest=['file'], use_start=[True], use_stop=[False])
                        + shards(template=['T4'], dest=['file'], use_start=[False], use_stop=[True])
-                       + shards(template=['T1', 'T2', 'T6', 'PACKED', 'T12', 'M1', 'M2'], dest=['file'], use_start=[False], use_stop=[False])
+                       + shards(template=['T1', 'T2', 'T6', 'PACKED', 'T12', 'M1', 'M2', 'T4U'], dest=['file'], use_start=[False], use_stop=[False])
                        + shards(template=['T1', 'T3'], dest=['mapping'], use_start=[False], use_stop=[False])),
             thorough=dict(timeout=900, shards=shards(template=_SRC + ['PACKED', 'T12', 'M1', 'M2', 'M3'], dest=['file'], use_start=[True, False], use_stop=[True, False])
                           + shards(template=['T1', 'T3'], dest=['mapping'], use_start=[True, False], use_stop=[False]))),
@@ -488,7 +498,7 @@ HARNESSES = [
             quick=dict(timeout=100, shards=shards(template=['T4', 'T12'])), thorough=dict(timeout=300, shards=shards(template=['T4', 'T5', 'T12']))),
     Harness('recover_clean', h_recover_clean,
             decides='fsrecover on an undamaged file reproduces the history (every revision query)',
-            symbolic='template selector', bounds='templates T1-T6, T10', oracle='RevStore battery',
+            symbolic='template selector', bounds='templates T1-T6, T10, T12, T4U', oracle='RevStore battery',
             code=['fsrecover.recover', 'read_txn_header', 'FileStorage.restore'],
             quick=dict(timeout=100), thorough=dict(timeout=300)),
     Harness('recover_truncated', h_recover_truncated,
